@@ -14,7 +14,8 @@ EXPLANATION = ("Structural necessary conditions of C22: the inventory G of proce
                "constructed one, not the answers themselves.")
 RULES = ("R1 inventory G = mutable statics read in solver-reachable code; R2 make_query must-writes all of G before "
          "renaming, parse_query's Ok goes through make_query; R3 kb/rule/goal/term Freeze, SolutionNode.kb is a shared "
-         "reference, no solver-reachable `&mut KnowledgeBase`; R4 no static holds node state")
+         "reference, no solver-reachable `&mut KnowledgeBase`; R4 no static holds node state; R5 = C23/R1: every timer started by solve/solve_all is cancelled on every path (a "
+         "leaked timer would set the stop flag during a later query)")
 TRUSTED = ["rustc nightly MIR construction", "Freeze computed by rustc (is_freeze)"]
 
 
@@ -117,5 +118,19 @@ def run(ctx):
     bad = [s for s in prog.lib["statics"] if any(x in s["ty"] for x in ("SolutionNode", "RefCell", "Rc<", "HashMap", "Vec<"))]
     ctx.ob("R4", "no-node-state-in-statics", not bad, "", "statics holding search state: %s" % [s["path"] for s in bad] if bad
            else "no static holds nodes, sets or collections (%d statics)" % len(prog.lib["statics"]))
+    # ---- R5: no timer of an earlier query survives it (C23/R1) -----------------------------------------------------
+    import importlib
+    c23 = importlib.import_module("rules.C23")
+    before = len(ctx.obs)
+    c23.run(ctx)
+    keep = []
+    for o in ctx.obs[before:]:
+        if o["rule"] == "R1":
+            o["instance"] = "C23.R1." + o["instance"]
+            o["rule"] = "R5"
+            o["key"] = "C22/R5/" + o["instance"]
+            keep.append(o)
+    del ctx.obs[before:]
+    ctx.obs.extend(keep)
     ctx.note("INFO C22: building a second query while a first one is half-enumerated resets the shared id counter under "
              "the first one (the property speaks of queries that ran before, so this is not counted)")
